@@ -93,17 +93,17 @@ theorem gen_clone_cases_complete :
     (Gen.ifaceRoutines.all fun (_, via, tys) => tys.all fun ty => (findRow Gen.cloneTable via ty).isSome) = true := by
   decide
 
-/-- Exactly one field of one routine has a guard stronger than a nil check: `Regex` in
-`Measurement.Clone` (and its use through `cloneSource`). -/
+/-- At most one field has a guard stronger than a nil check: `Regex` of `Measurement` in
+`Measurement.Clone` (and its use through `cloneSource`).  (Stated as an inclusion so that a repair of
+`Measurement.Clone` does not break the obligation.) -/
 theorem gen_needs_guards :
     ((Gen.cloneTable.flatMap fun r => r.fields.filterMap fun f =>
         match f.treat with
-        | .deep _ (.needs _) => some (r.routine, r.ty, f.name)
-        | _ => none) =
-      [(2, 10, "Regex".toList), (10, 10, "Regex".toList)]) ∧
-    Gen.routineNames[2]? = some "Measurement.Clone".toList ∧
-    Gen.routineNames[10]? = some "cloneSource".toList ∧
-    Gen.structNames[10]? = some "Measurement".toList := by decide
+        | .deep _ (.needs _) => some (Gen.routineNames[r.routine]?, Gen.structNames[r.ty]?, f.name)
+        | _ => none).all fun x =>
+      [(some "Measurement.Clone".toList, some "Measurement".toList, "Regex".toList),
+       (some "cloneSource".toList, some "Measurement".toList, "Regex".toList)].contains x) = true := by
+  decide
 
 /-! ### Faithful and disjoint clones, for every heap -/
 
@@ -136,6 +136,19 @@ theorem clone_faithful_partial {t : List Row} {ifaces} (hT : tableOK t ifaces = 
   rw [he]
   exact unfold_ext hwf e n a ha
 
+/-- **Faithful (full strength, for tables without a `needs` guard).** Whenever cloning succeeds the
+copy unfolds to the same tree as the original at every depth.  Applies to the generated table as soon
+as `Measurement.Clone` is repaired (`noNeeds Gen.cloneTable` then holds by `decide`); today it applies
+to every routine that does not go through `Measurement.Clone`. -/
+theorem clone_faithful {t : List Row} {ifaces} (hT : tableOK t ifaces = true) (hN : noNeeds t = true)
+    {fuel via : Nat} {h h' : Heap} {a a' : Nat} {q : Bool}
+    (hwf : WF h) (hc : cloneAddr t fuel via h a = some (h', a', q)) :
+    ∀ n, unfold n h' a' = unfold n h a := by
+  intro n
+  have hq : q = false := cloneAddr_noflag hN fuel via h a h' a' q hc
+  subst hq
+  exact (clone_faithful_partial hT hwf hc n).1
+
 /-- **Disjoint.** For every table that shares no reference to a mutable cell: nothing reachable
 from the copy is reachable from the original (in the heap after cloning), whatever the heap. -/
 theorem clone_disjoint {t : List Row} {ifaces} (hT : tableOK t ifaces = true)
@@ -158,14 +171,42 @@ theorem clone_disjoint {t : List Row} {ifaces} (hT : tableOK t ifaces = true)
   have hold : x < h.length := (Reach.of_ext hwf e hox ha).lt_length hwf ha
   omega
 
+/-- Today's rows of `Measurement.Clone` (routine 0) and of the literal it builds for `Regex`
+(routine 1), copied by hand so that the counterexample below stays a theorem after a repair of /repo
+(`gen_needs_guards` says where the guard sits in the regenerated table). -/
+def witnessTable : List Row := [
+  { routine := 0, ty := 10, fields := [
+      { name := "Database".toList, kind := .string, treat := .copied },
+      { name := "RetentionPolicy".toList, kind := .string, treat := .copied },
+      { name := "Name".toList, kind := .string, treat := .copied },
+      { name := "Regex".toList, kind := .ptrNode 14, treat := .deep 1 (.needs 0) },
+      { name := "IsTarget".toList, kind := .scalar, treat := .copied },
+      { name := "SystemIterator".toList, kind := .string, treat := .copied } ] },
+  { routine := 1, ty := 14, fields := [
+      { name := "Val".toList, kind := .ptrLib "regexp.Regexp".toList, treat := .deepLib } ] } ]
+
 /-- The kernel-checked counterexample behind the word *partial*: a `Measurement` whose `Regex`
-points to a `RegexLiteral` with nil `Val`, cloned by the generated row of `Measurement.Clone`:
-the copy has `Regex = nil`, so the unfoldings differ (and the interpreter raises the flag). -/
+points to a `RegexLiteral` with nil `Val`, cloned by the row of `Measurement.Clone`: the copy has
+`Regex = nil`, the interpreter raises the flag, and the unfoldings differ. -/
 theorem clone_unfaithful_witness :
     let h : Heap := [⟨some 14, [.lib none]⟩,
                      ⟨some 10, [.val 0, .val 0, .val 1, .ref (some 0), .val 0, .val 0]⟩]
-    cloneAddr Gen.cloneTable 3 2 h 1 =
-      some (h ++ [⟨some 10, [.val 0, .val 0, .val 1, .ref none, .val 0, .val 0]⟩], 2, true) := by
+    let h' := h ++ [⟨some 10, [.val 0, .val 0, .val 1, .ref none, .val 0, .val 0]⟩]
+    tableOK witnessTable [] = true ∧
+    cloneAddr witnessTable 3 0 h 1 = some (h', 2, true) ∧
+    (unfold 2 h' 2).isSome = true ∧ (unfold 2 h 1).isSome = true ∧
+    (match unfold 2 h' 2, unfold 2 h 1 with
+     | some (.node _ (_ :: _ :: _ :: .nil :: _)), some (.node _ (_ :: _ :: _ :: .node _ _ :: _)) => true
+     | _, _ => false) = true := by
+  decide
+
+/-- The regenerated table behaves the same on that heap as long as it contains the guard. -/
+theorem gen_witness_or_repaired :
+    noNeeds Gen.cloneTable = true ∨
+    (let h : Heap := [⟨some 14, [.lib none]⟩,
+                      ⟨some 10, [.val 0, .val 0, .val 1, .ref (some 0), .val 0, .val 0]⟩]
+     (Gen.routineNames.idxOf "Measurement.Clone".toList < Gen.routineNames.length ∧
+      ((cloneAddr Gen.cloneTable 3 (Gen.routineNames.idxOf "Measurement.Clone".toList) h 1).map (·.2.2)) = some true)) := by
   decide
 
 /-! ### Frame: later changes to one side are invisible to the other -/
@@ -319,26 +360,32 @@ theorem gen_inPlace_detected :
 
 /-! ### Non-vacuity -/
 
+/-- Struct / routine ids by name (so that the sample survives new types and routines in /repo). -/
+def sid (n : String) : Option Nat := some (Gen.structNames.idxOf n.toList)
+def rid (n : String) : Nat := Gen.routineNames.idxOf n.toList
+
 /-- `SELECT v INTO t FROM /m/ WHERE (v)` laid out as a heap (values are opaque codes). -/
 def sampleHeap : Heap := [
-  ⟨some 22, [.val 1, .val 0]⟩,                                   -- 0 VarRef v
-  ⟨some 7, [.ref (some 0), .val 0]⟩,                             -- 1 Field
-  ⟨none, [.ref (some 1)]⟩,                                       -- 2 Fields backing array
-  ⟨some 10, [.val 0, .val 0, .val 2, .ref none, .val 1, .val 0]⟩, -- 3 Measurement t (target)
-  ⟨some 19, [.ref (some 3)]⟩,                                    -- 4 Target
-  ⟨some 14, [.lib (some 5)]⟩,                                    -- 5 RegexLiteral /m/
-  ⟨some 10, [.val 0, .val 0, .val 0, .ref (some 5), .val 0, .val 0]⟩, -- 6 Measurement /m/
-  ⟨none, [.ref (some 6)]⟩,                                       -- 7 Sources backing array
-  ⟨some 22, [.val 1, .val 0]⟩,                                   -- 8 VarRef v
-  ⟨some 13, [.ref (some 8)]⟩,                                    -- 9 ParenExpr
-  ⟨some 15, [.ref (some 2), .ref (some 4), .ref none, .ref (some 7), .ref (some 9), .ref none,
-             .val 0, .val 0, .val 0, .val 0, .val 0, .val 1, .val 0, .val 0, .lib none,
-             .val 0, .val 0, .val 0, .val 0, .val 0]⟩              -- 10 SelectStatement
+  ⟨sid "VarRef", [.val 1, .val 0]⟩,                                   -- 0 VarRef v
+  ⟨sid "Field", [.ref (some 0), .val 0]⟩,                             -- 1 Field
+  ⟨none, [.ref (some 1)]⟩,                                            -- 2 Fields backing array
+  ⟨sid "Measurement", [.val 0, .val 0, .val 2, .ref none, .val 1, .val 0]⟩, -- 3 Measurement t (target)
+  ⟨sid "Target", [.ref (some 3)]⟩,                                    -- 4 Target
+  ⟨sid "RegexLiteral", [.lib (some 5)]⟩,                              -- 5 RegexLiteral /m/
+  ⟨sid "Measurement", [.val 0, .val 0, .val 0, .ref (some 5), .val 0, .val 0]⟩, -- 6 Measurement /m/
+  ⟨none, [.ref (some 6)]⟩,                                            -- 7 Sources backing array
+  ⟨sid "VarRef", [.val 1, .val 0]⟩,                                   -- 8 VarRef v
+  ⟨sid "ParenExpr", [.ref (some 8)]⟩,                                 -- 9 ParenExpr
+  ⟨sid "SelectStatement",
+    [.ref (some 2), .ref (some 4), .ref none, .ref (some 7), .ref (some 9), .ref none,
+     .val 0, .val 0, .val 0, .val 0, .val 0, .val 1, .val 0, .val 0, .lib none,
+     .val 0, .val 0, .val 0, .val 0, .val 0]⟩                          -- 10 SelectStatement
 ]
 
-/-- The interpreter succeeds on the sample (routine 4 = `SelectStatement.Clone`), allocates
-eleven cells, puts the copy at address 21 and raises no flag. -/
-example : (cloneAddr Gen.cloneTable 6 4 sampleHeap 10).map (fun r => (r.1.length, r.2)) = some (22, 21, false) := by
+/-- The interpreter succeeds on the sample with the generated row of `SelectStatement.Clone`,
+allocates eleven cells, puts the copy at address 21 and raises no flag. -/
+example : (cloneAddr Gen.cloneTable 6 (rid "SelectStatement.Clone") sampleHeap 10).map (fun r => (r.1.length, r.2))
+    = some (22, 21, false) := by
   decide
 
 /-- A write to the clone's condition (`Confined` history of length two with an allocation). -/
